@@ -1087,7 +1087,17 @@ func rule168(r *core.Run) {
 			if strings.Contains(cn, "Logger") || strings.HasPrefix(cn, "log.") || strings.HasPrefix(cn, "fmt.") {
 				return
 			}
-			for _, a := range c.Call.Args {
+			// where the host enters the matching: the subject of a suffix comparison, or an argument of
+			// the matcher (a closure value or a function of this package)
+			suffixCmp := cn == "strings.HasSuffix" || cn == "strings.TrimSuffix" || cn == "strings.CutSuffix"
+			matcher := strings.HasPrefix(cn, "dyn") || strings.HasPrefix(cn, "gofakes3.") || core.StaticCallee(c) == nil && !c.Call.IsInvoke()
+			if !suffixCmp && !matcher {
+				return
+			}
+			for i, a := range c.Call.Args {
+				if suffixCmp && i != 0 {
+					continue
+				}
 				hs := r.P.SliceOf(a, core.SliceOpts{Depth: -1})
 				if !hs.Has("field:net/http.Request.Host") {
 					continue
